@@ -1549,6 +1549,134 @@ pub fn run(cfg: &Cfg) -> Report {
       }
     }
   }
+  // The cells of a table are taken as they are written in the document: string literals that differ only in the white
+  // space inside them (two blanks, a tab, a blank and a tab, a blank at either end; a line break is no part of a FEEL string literal) are different values — in input entries,
+  // input values, output entries, output values and default output entries.  The expectation is written out here from
+  // the strings alone (a rule matches when the input string is literally one of / none of the strings of its entry
+  // and is among the input values; outputs are ranked by their literal position among the output values).
+  {
+    const IN_POOL: [&str; 8] = ["New York", "New  York", "New\tYork", "New \tYork", " New York", "New York ", "NewYork", "New   York"];
+    const OUT_POOL: [&str; 7] = ["east coast", "east  coast", "east\tcoast", "east coast ", "west  coast", "west coast", "no\tzone"];
+    // U, A, P, F, R, O, C, C#
+    const LT_POLICIES: [usize; 8] = [0, 1, 2, 3, 4, 5, 6, 10];
+    let q = |s: &str| format!("\"{}\"", s);
+    let n_lt = if thorough { 4_000 } else { 400 };
+    for ti in 0..n_lt {
+      let policy_ix = LT_POLICIES[ti % LT_POLICIES.len()];
+      let tag = POLICIES[policy_ix].2;
+      let n_rules = 1 + rng.below(5) as usize;
+      // (negated, the strings of the entry; empty: the entry `-`), the output
+      let mut entries: Vec<(bool, Vec<usize>)> = vec![];
+      let mut outs: Vec<usize> = vec![];
+      let mut rules = vec![];
+      // a narrow window of the pools makes several matches and equal outputs frequent
+      let base = rng.below(IN_POOL.len() as u64) as usize;
+      let near = |rng: &mut Rng, n: usize| (base + rng.below(3) as usize) % n;
+      for _ in 0..n_rules {
+        let (neg, strs): (bool, Vec<usize>) = match rng.below(6) {
+          0 => (false, vec![]),
+          1 | 2 => (false, vec![near(&mut rng, IN_POOL.len())]),
+          3 => (false, vec![near(&mut rng, IN_POOL.len()), rng.below(IN_POOL.len() as u64) as usize]),
+          4 => (true, vec![near(&mut rng, IN_POOL.len())]),
+          _ => (false, vec![rng.below(IN_POOL.len() as u64) as usize]),
+        };
+        let text = if strs.is_empty() {
+          "-".to_string()
+        } else {
+          let l = strs.iter().map(|&k| q(IN_POOL[k])).collect::<Vec<_>>().join(", ");
+          if neg {
+            format!("not({})", l)
+          } else {
+            l
+          }
+        };
+        let o = near(&mut rng, OUT_POOL.len());
+        entries.push((neg, strs));
+        outs.push(o);
+        rules.push(GenRule { inputs: vec![text], outputs: vec![q(OUT_POOL[o])] });
+      }
+      let mut order: Vec<usize> = (0..OUT_POOL.len()).collect();
+      for k in (1..order.len()).rev() {
+        let j = rng.below(k as u64 + 1) as usize;
+        order.swap(k, j);
+      }
+      let prioritising = matches!(tag, "P" | "O");
+      let listed = prioritising || rng.chance(1, 4);
+      let input_values: Option<Vec<usize>> = if rng.chance(1, 3) { Some((0..IN_POOL.len()).filter(|_| rng.chance(2, 3)).collect::<Vec<_>>()).filter(|v: &Vec<usize>| !v.is_empty()) } else { None };
+      let default: Option<usize> = if rng.chance(1, 3) { Some(rng.below(OUT_POOL.len() as u64) as usize) } else { None };
+      let t = GenTable {
+        decimal: false,
+        hit_policy: POLICIES[policy_ix].0,
+        aggregation: POLICIES[policy_ix].1,
+        ins: vec![InClause { name: "i1".into(), ty: Ty::Str, input_values: input_values.as_ref().map(|iv| iv.iter().map(|&k| q(IN_POOL[k])).collect::<Vec<_>>().join(", ")) }],
+        outs: vec![OutClause {
+          name: if rng.chance(1, 2) { Some("o1".into()) } else { None },
+          ty: Ty::Str,
+          output_values: if listed { Some(order.iter().map(|&k| q(OUT_POOL[k])).collect::<Vec<_>>().join(", ")) } else { None },
+          default: default.map(|k| q(OUT_POOL[k])),
+        }],
+        rules,
+      };
+      let xml = table_xml(&t);
+      let me = match guarded(|| dmntk_model::parse(&xml).map_err(|e| e.to_string()).and_then(|d| ModelEvaluator::new(&d).map_err(|e| e.to_string()))) {
+        Ok(Ok(me)) => me,
+        other => {
+          let shown = match other {
+            Ok(Err(e)) => e,
+            Err(p) => format!("panic {}", p),
+            _ => String::new(),
+          };
+          rep.disagree(Kind::ImplVsSpec, "literal-text", "a table whose string literals contain white space (blanks, a tab) does not load", &xml, &shown, "a built model");
+          continue;
+        }
+      };
+      let rank = |o: usize| order.iter().position(|&k| k == o).unwrap_or(usize::MAX);
+      let s = |k: usize| Sexp::str(OUT_POOL[k]).to_string();
+      for _ in 0..3 {
+        let vi = if rng.chance(3, 4) { near(&mut rng, IN_POOL.len()) } else { rng.below(IN_POOL.len() as u64) as usize };
+        let allowed = input_values.as_ref().map_or(true, |iv| iv.contains(&vi));
+        let ms: Vec<usize> = (0..n_rules).filter(|&k| allowed && (entries[k].1.is_empty() || entries[k].1.contains(&vi) != entries[k].0)).map(|k| outs[k]).collect();
+        let want = if ms.is_empty() {
+          default.map_or("null".to_string(), s)
+        } else {
+          match tag {
+            "U" => if ms.len() == 1 { s(ms[0]) } else { "null".to_string() },
+            "A" => if ms.iter().all(|x| *x == ms[0]) { s(ms[0]) } else { "null".to_string() },
+            "F" => s(ms[0]),
+            "P" => {
+              let best = ms.iter().map(|&x| rank(x)).min().unwrap();
+              s(*ms.iter().find(|&&x| rank(x) == best).unwrap())
+            }
+            "R" | "C" => format!("(l {})", ms.iter().map(|&x| s(x)).collect::<Vec<_>>().join(" ")),
+            "O" => {
+              let mut sorted = ms.clone();
+              sorted.sort_by_key(|&x| rank(x));
+              format!("(l {})", sorted.iter().map(|&x| s(x)).collect::<Vec<_>>().join(" "))
+            }
+            _ => format!("(n {})", ms.len()),
+          }
+        };
+        let mut sent = FeelContext::default();
+        sent.set_entry(&"i1".into(), Value::String(IN_POOL[vi].to_string()));
+        let got = match guarded(|| me.evaluate_invocable("D", &sent)) {
+          Ok(v) => value_sexp(&v).map_or_else(|| format!("(unsupported {})", v), |x| x.to_string()),
+          Err(p) => format!("(panic {})", p.replace(' ', "_")),
+        };
+        rep.case(&format!("{}|{:?}", xml, IN_POOL[vi]), true);
+        rep.hit(&format!("literal-text: policy {} × matches {}", tag, if ms.len() > 1 { "several" } else if ms.len() == 1 { "one" } else if default.is_some() { "none, default" } else { "none" }));
+        if got != want {
+          rep.disagree(
+            Kind::ImplVsSpec,
+            "literal-text",
+            &format!("hit policy {} over string cells that differ in the white space inside the literals: the result is not what the texts of the cells prescribe", tag),
+            &format!("{} | input {{i1: {:?}}}", xml, IN_POOL[vi]),
+            &got,
+            &want,
+          );
+        }
+      }
+    }
+  }
   // Decimal outputs under every single-output policy, with the expectation written out here in exact integer arithmetic
   // (`Dn`: coefficient / 10^scale), independent of the evaluator and of the Lean model: which rules match is told by
   // the oracle on the entry texts; equality, order and sum are numeric. Pools: the same values under different
